@@ -39,6 +39,12 @@ type UpdateHandler interface {
 	OnUpdate(*execution.JobConfig)
 }
 
+// AddHandler may optionally be implemented by an UpdateHandler, in order to
+// also handle JobConfigs that are newly added.
+type AddHandler interface {
+	OnAdd(*execution.JobConfig)
+}
+
 func NewInformerWorker(ctrlContext *Context, handler UpdateHandler) *InformerWorker {
 	w := &InformerWorker{
 		Context: ctrlContext,
@@ -55,11 +61,26 @@ func (w *InformerWorker) WorkerName() string {
 func (w *InformerWorker) Init() {
 	// Add event handler when we get JobConfig updates.
 	w.jobconfigInformer.Informer().AddEventHandler(cache.ResourceEventHandlerFuncs{
+		AddFunc: w.handleAdd,
 		UpdateFunc: func(oldObj, newObj interface{}) {
 			w.handleUpdate(oldObj, newObj)
 		},
 		DeleteFunc: w.enqueueFlush,
 	})
+}
+
+func (w *InformerWorker) handleAdd(obj interface{}) {
+	rjc, err := eventhandler.Executionv1alpha1JobConfig(obj)
+	if err != nil {
+		klog.ErrorS(err, "croncontroller: unable to handle event", "worker", w.WorkerName())
+		return
+	}
+
+	// Newly added JobConfigs have to be added to the schedule, otherwise they will
+	// only be scheduled after the next restart of the controller.
+	if handler, ok := w.handler.(AddHandler); ok {
+		handler.OnAdd(rjc)
+	}
 }
 
 func (w *InformerWorker) handleUpdate(oldObj, newObj interface{}) {
@@ -105,12 +126,21 @@ func (w *InformerWorker) enqueueFlush(obj interface{}) {
 
 type updateHandler struct {
 	updateChan chan *execution.JobConfig
+	addChan    chan *execution.JobConfig
 }
 
 var _ UpdateHandler = (*updateHandler)(nil)
+var _ AddHandler = (*updateHandler)(nil)
 
 func NewUpdateHandler(ctrlContext *Context) UpdateHandler {
-	return &updateHandler{updateChan: ctrlContext.updatedConfigs}
+	return &updateHandler{
+		updateChan: ctrlContext.updatedConfigs,
+		addChan:    ctrlContext.addedConfigs,
+	}
+}
+
+func (d *updateHandler) OnAdd(jobConfig *execution.JobConfig) {
+	d.addChan <- jobConfig
 }
 
 func (d *updateHandler) OnUpdate(jobConfig *execution.JobConfig) {
